@@ -492,48 +492,73 @@ def check_admission_metrics(rep, fl):
 def check_dropsets(rep, fl):
     """R17.5: DropSets(1) on the failure arms of the insert-buffer send iff the item is not an update."""
     facts = fl.facts
-    ti = fl.cache_fn("try_insert_in")
-    bodies = [x for x in descendants(facts, ti) if x.span["f"].startswith("src/")]
-    n = 0
-    allok = True
-    why = ""
-    for x in bodies:
-        ticks = [(bi, t, metric_tick(x, t)) for bi, t in x.calls() if metric_tick(x, t)]
-        if not ticks:
-            continue
-        at, entry = dataflow(x)
-        for bi, t, mt in ticks:
-            n += 1
-            if mt[0] != "DropSets" or mt[2] != ("const", 1, "u64"):
+    ti = facts.flat(fl.cache_fn("try_insert_in"))
+
+    def updness(es):
+        """[True] / [False] when the path knows whether the queued item is an Update, else []."""
+        out = []
+        for a, v in es.lits:
+            if a[0] == "variant" and a[2] == "Update":
+                out.append(v)
+            elif a[0] == "variant" and a[2] in ("New", "Delete", "Wait") and v:
+                out.append(False)
+            elif is_call(a, "Item::is_update"):
+                out.append(v)
+        return sorted(set(out))
+
+    def lab(bi, t):
+        mt = metric_tick(ti, t)
+        if mt and mt[0] == "DropSets":
+            return "drop" if mt[2] == ("const", 1, "u64") else "drop!badargs"
+        return ("tick " + mt[0]) if mt else None
+    outs, at2 = count_paths(ti, lab, max_states=20000)
+    ticks = [(bi, t) for bi, t in ti.calls() if (metric_tick(ti, t) or ("",))[0] == "DropSets"]
+    allok = bool(ticks)
+    why = "no DropSets tick in try_insert_in" if not ticks else ""
+    for bi, t in ticks:
+        for s in at2.get((bi, term_idx(ti, bi)), set()):
+            upd = updness(expand_state(ti, s, hist=True))
+            if upd != [False]:
                 allok = False
-                why = "unexpected tick %s" % mt[0]
+                why = "DropSets ticked on a path where the item is not known to be a non-update (%s)" % upd
+    # every Ok(const) result built on a path that knows the kind of the item: false + one tick for a
+    # non-update, true without a tick for an update
+    n_sites = 0
+    for bi in ti.live_blocks():
+        for si, st in enumerate(ti.blocks[bi]["stmts"]):
+            if st["k"] != "assign":
                 continue
-            sts = [expand_state(x, s, hist=True) for s in at.get((bi, term_idx(x, bi)), set())]
-            for s in sts:
-                upd = [v for a, v in s.lits if is_call(in_parent_terms(facts, x, a), "Item::is_update") or (a[0] == "var" and "is_update" in a[1])]
-                if upd != [False]:
+            e = norm(ti.rvalue_expr(st["rv"], True))
+            if not (e[0] == "agg" and e[2].endswith("Result::Ok") and e[3] and e[3][0][0] == "const" and e[3][0][2] == "bool"):
+                continue
+            for s in at2.get((bi, si), set()):
+                d = dict(s.user or ())
+                upd = updness(expand_state(ti, s, hist=True))
+                if any(k_.startswith("tick ") or k_.endswith("!badargs") for k_ in d):
                     allok = False
-                    why = "DropSets ticked on a path where is_update is %s" % upd
-        # every return of a body that has a failure arm: Ok(false) iff DropSets ticked
-        def lab(bi, t, x=x):
-            mt = metric_tick(x, t)
-            return "drop" if mt and mt[0] == "DropSets" else None
-        outs, at2 = count_paths(x, lab)
-        for rbi, rsi in x.defs.get(0, []):
-            e = norm(x.def_expr(rbi, rsi, True))
-            if e[0] == "agg" and e[2].endswith("Result::Ok") and e[3][0][0] == "const":
-                for s in at2.get((rbi, rsi), set()):
-                    es = expand_state(x, s, hist=True)
-                    d = dict(s.user or ()).get("drop", 0)
-                    upd = [v for a, v in es.lits if is_call(in_parent_terms(facts, x, a), "Item::is_update") or (a[0] == "var" and "is_update" in a[1])]
-                    if upd == [False] and (e[3][0][1] != 0 or d != 1):
+                    why = "unexpected metric tick on the insert path: %s" % sorted(d)
+                es_ = expand_state(ti, s, hist=True)
+                sent = any(a[0] == "variant" and ((a[2] == "Ok" and v) or (a[2] == "Err" and not v)) for a, v in es_.lits)
+                if sent:
+                    # the item was queued: true, nothing dropped
+                    if e[3][0][1] != 1 or d.get("drop", 0) != 0:
                         allok = False
-                        why = "a failed send of a non-update item must tick DropSets once and return Ok(false) (returns %s, %d ticks)" % (e[3][0][1], d)
-                    if upd == [True] and (e[3][0][1] != 1 or d != 0):
+                        why = "a queued item must return Ok(true) without DropSets (returns %s, %d ticks)" % (e[3][0][1], d.get("drop", 0))
+                elif upd == [False]:
+                    n_sites += 1
+                    if e[3][0][1] != 0 or d.get("drop", 0) != 1:
+                        allok = False
+                        why = "a failed send of a non-update item must tick DropSets once and return Ok(false) (returns %s, %d ticks)" % (e[3][0][1], d.get("drop", 0))
+                elif upd == [True]:
+                    n_sites += 1
+                    if e[3][0][1] != 1 or d.get("drop", 0) != 0:
                         allok = False
                         why = "a failed send of an Update item must return Ok(true) without DropSets"
-    rep.check(allok and n == 2, "R17.5", fl, ti, "DropSets", "both failure arms (send error, buffer full) tick DropSets(index, 1) and return false iff the item is not an update; updates return true",
-              "sets_dropped accounting broken (%d tick sites): %s" % (n, why))
+                elif d.get("drop", 0):
+                    allok = False
+                    why = "DropSets ticked on a path that does not know the kind of the item"
+    rep.check(allok and n_sites >= 2, "R17.5", fl, ti, "DropSets", "the failure arms (send error, buffer full) tick DropSets(index, 1) and return false iff the item is not an update; updates return true",
+              "sets_dropped accounting broken (%d tick sites, %d result sites): %s" % (len(ticks), n_sites, why))
 
 
 def check_metrics_core(rep, fl):
